@@ -87,6 +87,10 @@ func describe(c *Case) string {
 		return "EvalExpr(" + c.Expr + ")"
 	case "globals":
 		return "ParseGlobals(" + fmt.Sprintf("%q", c.Text) + ")"
+	case "globals-reader":
+		return fmt.Sprintf("ParseGlobals(reader failing with %s after %d bytes of %q)", c.Expr, c.FailAfter, c.Text)
+	case "bundle-paths":
+		return "bundle built from paths ($D = a temp dir holding ok.soy, g.txt, sub/x.soy): " + c.Text
 	}
 	var b strings.Builder
 	for _, f := range c.Files {
@@ -325,6 +329,18 @@ func registryCases(add func(*Case)) {
 			add(&Case{Family: "file-layout", Feature: fmt.Sprintf("layout=%d,entry=%s", k, entry), Kind: "render", NoIJ: true, Entry: entry,
 				Files: []core.File{{Name: "f.soy", Text: src}}})
 		}
+	}
+	// readers that fail and paths that are not files: every entry point returns
+	glob := "// c\nA = 1\nB = 'x'\n" + strings.Repeat("C = 3\n", 40)
+	for _, kind := range []string{"plain", "unexpected-eof", "eisdir", "zero-nil"} {
+		for _, after := range []int{0, 1, 5, 6, 12, 40, len(glob)} {
+			add(&Case{Family: "globals-reader", Feature: fmt.Sprintf("err=%s,after=%d", kind, after), Kind: "globals-reader", Text: glob, Expr: kind, FailAfter: after})
+		}
+	}
+	for k, steps := range []string{"globals=$D", "globals=$D/missing.txt", "globals=$D/sub", "globals=$D/g.txt;file=$D/ok.soy", "globals=$D/g.txt;file=$D", "globals=$D/g.txt;file=$D/missing.soy",
+		"globals=$D/g.txt;dir=$D", "globals=$D/g.txt;dir=$D/missing", "globals=$D/g.txt;dir=$D/ok.soy", "file=$D/ok.soy;globals=$D/ok.soy", "globals=$D/g.txt;globals=$D/g.txt;file=$D/ok.soy",
+		"globals=/dev/null;file=$D/ok.soy", "globals=$D/g.txt;file=/dev/null", "dir=$D/sub;file=$D/sub/x.soy"} {
+		add(&Case{Family: "bundle-paths", Feature: fmt.Sprintf("steps=%d", k), Kind: "bundle-paths", Text: steps, Entry: "p.t", NoIJ: true})
 	}
 	// the same name in one file twice
 	add(&Case{Family: "duplicate-template-names", Feature: "same-file", Kind: "render", NoIJ: true, Entry: "d.t",
